@@ -2,6 +2,7 @@
 
 mod common;
 mod e1;
+mod e3;
 mod rng;
 mod scenarios;
 mod supervisor;
